@@ -2912,9 +2912,9 @@ def gen_inputs(tier, rng):
     # PART E: argument objects (OverSamplingDataset) shared between dataset constructors / apply_over_sampling calls / omitted
     for k in range(400 if big else 40): yield gen_share(rng)
     # re-masking chains on fully specified Imaging datasets (noise covariance matrix ...), each dataset vs its history-free twin
-    for k in range(500 if big else 44): yield gen_remask(rng, k)
+    for k in range(400 if big else 44): yield gen_remask(rng, k)
     # structure queries called three times on equal inputs with the heap dirtied in between; windows leaving the frame vs a reference
-    for k in range(1500 if big else 120): yield gen_determ(rng, k)
+    for k in range(1200 if big else 120): yield gen_determ(rng, k)
     # util functions (solvers first) called directly with caller-owned arrays: C / Fortran order, float64 / int64 / float32
     for k in range(680 if big else 68): yield gen_util(rng, k)
     for k in range(120 if big else 18):
